@@ -5,13 +5,14 @@ from __future__ import annotations
 import ast
 
 from ..astutil import (
-    attr_stores, call_name, calls_in, dotted, enclosing_withs, guard_atoms, lexical_guards, names_in,
-    test_atoms, unparse, walk_local,
+    attr_stores, call_name, calls_in, dotted, enclosing_withs, guard_atoms, lexical_guards, name_stores,
+    names_in, test_atoms, unparse, walk_local,
 )
 from ..cfg import no_exc
 from ..report import Registry, sub, chain
 from ._helpers_rules_c import (
     attr_store_sites, both, call_nodes, calls_ending, cut_edges, must_pass, quiet, rcfg, test_edges,
+    is_logging_call as _is_log, own_calls as _own_calls,
 )
 
 R = Registry(
@@ -89,34 +90,52 @@ def r1(ctx):
                       f"`{unparse(st)}` changes the overflow counter outside `with self._overflow_lock` "
                       f"while a limit is enforced (lost update / limit overrun under concurrency)",
                       "no lock needed: dominated by `_max_overflow == -1`", loc)
-    # check-then-act atomicity in _inc_overflow
+    # check-then-act atomicity in _inc_overflow.  Every increment that can run while a limit is
+    # enforced must be dominated (on the CFG: nested `if`, early return, either style) by a branch
+    # outcome that establishes `_overflow < _max_overflow`, and that test must be evaluated inside the
+    # very `with self._overflow_lock` statement that holds the increment.  A second, unlocked copy of
+    # the test (fast path) is harmless and ignored; a test that lives only outside the region is not.
     f = ctx.func(f"{IMPL}::QueuePool._inc_overflow")
     pm = f.module.parents()
+    g = ctx.cfg(f)
     incs = [st for d, t, st in attr_stores(f.node) if d == "self._overflow" and isinstance(st, ast.AugAssign)]
     ctx.require(incs, "_inc_overflow does not increment self._overflow")
-    ok, why = False, "no increment is guarded by a comparison of _overflow with _max_overflow"
-    limited = 0
+    problems, limited = [], 0
     for st in incs:
-        guards = lexical_guards(pm, st, stop=f.node)
-        lim = [t for t, pol in guards
-               if {"self._overflow", "self._max_overflow"} <= {dotted(x) for x in ast.walk(t) if isinstance(x, ast.Attribute)}]
-        if not lim:
-            continue
+        ctx.require(isinstance(st.op, ast.Add) and isinstance(st.value, ast.Constant) and st.value.value == 1,
+                    f"_inc_overflow changes the counter by `{unparse(st)}`; only `+= 1` is understood")
+        doms = None
+        for n in g.nodes_for(st):
+            here = [(id(t), t, p) for t, p in g.edge_guards(n)]
+            doms = here if doms is None else [x for x in doms if x[0] in {y[0] for y in here}]
+        guards = [(t, p) for _, t, p in (doms or [])]
+        if ("self._max_overflow == -1", True) in guard_atoms(guards):
+            continue  # unlimited pool: nothing to keep below
         limited += 1
         ws = _lock_withs(pm, st, f.node, "self._overflow_lock")
-        same = bool(ws) and all(any(w is a for a in _anc(pm, t_)) for t_ in lim for w in ws[:1])
-        # the limit test must be pol=True `<` form
-        t0 = lim[-1]
-        lt = isinstance(t0, ast.Compare) and len(t0.ops) == 1 and isinstance(t0.ops[0], ast.Lt) \
-            and dotted(t0.left) == "self._overflow" and dotted(t0.comparators[0]) == "self._max_overflow"
-        pol = dict((id(t), p) for t, p in guards)[id(t0)]
-        if same and lt and pol:
-            ok = True
-        elif not same:
-            why = "the limit test and the increment are not inside the same `with self._overflow_lock` region"
+        region = ws[0] if ws else None   # innermost lock statement around the increment
+        facts = []                        # (kind, compare expr, site node) over all dominating outcomes
+        for t, pol in guards:
+            facts.extend(_limit_facts(ctx, f, pm, t, pol, t))
+        strict_in = [x for x in facts if x[0] == "strict" and region is not None and _inside(pm, x[2], region)]
+        if strict_in:
+            continue
+        strict_out = [x for x in facts if x[0] == "strict"]
+        weak = [x for x in facts if x[0] == "weak"]
+        if strict_out:
+            problems.append(
+                f"the limit test `{unparse(strict_out[-1][1])}` (line {strict_out[-1][2].lineno}) is evaluated outside the "
+                f"`with self._overflow_lock` region that holds `{unparse(st)}` (line {st.lineno}): two threads that "
+                f"both see one free slot both increment (check-then-act, limit overrun)")
+        elif weak:
+            problems.append(
+                f"limit test `{unparse(weak[-1][1])}` (line {weak[-1][2].lineno}) lets `{unparse(st)}` run when "
+                f"_overflow == _max_overflow (off by one: the counter ends above the limit)")
         else:
-            why = f"limit test `{unparse(t0)}` (taken {'true' if pol else 'false'}) does not keep _overflow below _max_overflow"
-    ctx.check(ok and limited >= 1, f.key + ":check-then-act", why, "`_overflow < _max_overflow` and `+= 1` in one lock region", f.loc)
+            problems.append(f"`{unparse(st)}` (line {st.lineno}) is not dominated by any comparison of _overflow with _max_overflow")
+    ctx.require(limited >= 1, "_inc_overflow has no increment on the limited (`_max_overflow != -1`) path")
+    ctx.check(not problems, f.key + ":check-then-act", "; ".join(problems),
+              "`_overflow < _max_overflow` decided and `+= 1` executed in one `with self._overflow_lock` region", f.loc)
 
 
 def _anc(pm, node):
@@ -124,6 +143,73 @@ def _anc(pm, node):
     while cur is not None:
         yield cur
         cur = pm.get(cur)
+
+
+def _inside(pm, node, region) -> bool:
+    return any(a is region for a in _anc(pm, node))
+
+
+def _single_local(fn, name):
+    """(value, statement) of the only binding of local `name` in fn, else None."""
+    hits = [(v, st) for nm, v, st in name_stores(fn) if nm == name]
+    if len(hits) == 1 and hits[0][0] is not None and name not in {a.arg for a in fn.args.posonlyargs + fn.args.args + fn.args.kwonlyargs}:
+        return hits[0]
+    return None
+
+
+def _conj(test, pol):
+    """Conjunctive atoms (expr, polarity) of a branch outcome, as AST (cf. astutil.test_atoms)."""
+    if isinstance(test, ast.UnaryOp) and isinstance(test.op, ast.Not):
+        return _conj(test.operand, not pol)
+    if isinstance(test, ast.BoolOp) and ((isinstance(test.op, ast.And) and pol) or (isinstance(test.op, ast.Or) and not pol)):
+        out = []
+        for v in test.values:
+            out.extend(_conj(v, pol))
+        return out
+    return [(test, pol)]
+
+
+_OVF, _MAX = "self._overflow", "self._max_overflow"
+
+
+def _limit_facts(ctx, f, pm, test, pol, site, depth=0):
+    """What a branch outcome says about `_overflow` vs `_max_overflow`:
+    [("strict" | "weak" | "none", compare expr, node where the comparison is evaluated)].
+    strict: establishes _overflow < _max_overflow; weak: only _overflow <= _max_overflow; none: the
+    opposite side.  Followed through one single-assignment local (`ok = <cmp>` ... `if ok:` -- the site
+    is the assignment) and one argument-less `self.m()` whose body is a single `return <expr>` (the site
+    is the call).  A comparison of the two attributes in any other shape is an unknown idiom."""
+    out = []
+    for a, p in _conj(test, pol):
+        if isinstance(a, ast.Name) and depth < 2:
+            loc = _single_local(f.node, a.id)
+            if loc is not None:
+                out.extend(_limit_facts(ctx, f, pm, loc[0], p, loc[1], depth + 1))
+            continue
+        if isinstance(a, ast.Call) and not a.args and not a.keywords and (call_name(a) or "").startswith("self.") \
+                and (call_name(a) or "").count(".") == 1 and depth < 2 and f.cls is not None:
+            h = ctx.index.resolve_method(f.cls, call_name(a)[5:])
+            body = [s for s in h.node.body if not (isinstance(s, ast.Expr) and isinstance(s.value, ast.Constant))] if h else []
+            if len(body) == 1 and isinstance(body[0], ast.Return) and body[0].value is not None:
+                ctx.functions_analysed.add(h.key)
+                for kind, cmp_, _s in _limit_facts(ctx, h, h.module.parents(), body[0].value, p, a, depth + 1):
+                    out.append((kind, cmp_, site if depth else a))
+            continue
+        attrs = {dotted(x) for x in ast.walk(a) if isinstance(x, ast.Attribute)}
+        if not {_OVF, _MAX} <= attrs:
+            continue
+        ctx.require(isinstance(a, ast.Compare) and len(a.ops) == 1
+                    and {dotted(a.left), dotted(a.comparators[0])} == {_OVF, _MAX}
+                    and isinstance(a.ops[0], (ast.Lt, ast.LtE, ast.Gt, ast.GtE)),
+                    f"{f.key}: `{unparse(a)}` relates _overflow and _max_overflow in a shape that is not understood")
+        op = type(a.ops[0])
+        if dotted(a.left) == _MAX:   # mirror: max > ovf  ==  ovf < max
+            op = {ast.Lt: ast.Gt, ast.Gt: ast.Lt, ast.LtE: ast.GtE, ast.GtE: ast.LtE}[op]
+        if not p:                     # negate
+            op = {ast.Lt: ast.GtE, ast.GtE: ast.Lt, ast.LtE: ast.Gt, ast.Gt: ast.LtE}[op]
+        kind = {ast.Lt: "strict", ast.LtE: "weak"}.get(op, "none")
+        out.append((kind, a, site if depth else a))
+    return out
 
 
 # ---------------------------------------------------------------------- C25-R2 (shared with C26-R5)
@@ -394,6 +480,151 @@ def r6(ctx):
     ctx.check(bool(clears) and w is None, f.key + ":clear-before-return",
               "_return_conn() can run before fairy_ref is cleared (a concurrent finalizer would check the record in again)",
               "fairy_ref = None precedes _return_conn", f.loc, w)
+    _gc_ownership(ctx)
+
+
+# A weakref callback can fire long after its fairy stopped owning the record (detach(), a failed
+# checkout): by then the record may be checked out again by another fairy.  The only thing the callback
+# has that identifies "its" checkout is the weakref object it is called with; the record publishes the
+# weakref of its current owner in fairy_ref.  So the finalizer may act on the record on the gc path only
+# after it has compared the two.
+_RECORD_NEUTRAL_CALLEES = ("isinstance", "bool", "id", "repr", "str")
+
+
+def _operand(fn, e):
+    """dotted text of a comparison operand, followed through one single-assignment local."""
+    if isinstance(e, ast.Name):
+        loc = _single_local(fn, e.id)
+        if loc is not None and dotted(loc[0]):
+            return dotted(loc[0])
+    return dotted(e)
+
+
+def _outcome_atoms(fn, test, pol, depth=0):
+    """Conjunctive atoms (expr, polarity) of a branch outcome with boolean single-assignment locals
+    (`is_gc_cleanup = ref is not None`) expanded."""
+    out = []
+    for a, p in _conj(test, pol):
+        if isinstance(a, ast.Name) and depth < 2:
+            loc = _single_local(fn, a.id)
+            if loc is not None and isinstance(loc[0], (ast.Compare, ast.BoolOp, ast.UnaryOp)):
+                out.extend(_outcome_atoms(fn, loc[0], p, depth + 1))
+                continue
+        out.append((a, p))
+    return out
+
+
+def _gc_ownership(ctx):
+    ix = ctx.index
+    co = ctx.func(f"{POOL}::_ConnectionRecord.checkout")
+    # 1. the weakref published in fairy_ref and the callback it is created with
+    pubs = [(d, st) for d, t, st in attr_stores(co.node) if d.endswith(".fairy_ref") and isinstance(st, ast.Assign)
+            and isinstance(st.value, ast.Call) and (call_name(st.value) or "").rsplit(".", 1)[-1] == "ref"]
+    ctx.require(len(pubs) == 1, "checkout does not publish exactly one weakref.ref(...) in fairy_ref")
+    d, st = pubs[0]
+    rec_name = d.rsplit(".", 1)[0]
+    wr = st.value
+    ctx.require(len(wr.args) == 2, "the weakref stored in fairy_ref has no callback (gc of a fairy would leak its record)")
+    cb = wr.args[1]
+    if isinstance(cb, ast.Name):
+        cands = [n for n in ast.walk(co.node) if isinstance(n, ast.FunctionDef) and n.name == cb.id]
+        ctx.require(len(cands) == 1, f"weakref callback `{cb.id}` is not a local function of checkout")
+        cb = cands[0]
+    ctx.require(isinstance(cb, (ast.Lambda, ast.FunctionDef)), f"weakref callback `{unparse(cb)[:60]}` is not a lambda / local function")
+    cb_params = [a.arg for a in cb.args.posonlyargs + cb.args.args]
+    ctx.require(len(cb_params) == 1, "weakref callback does not take exactly the weakref argument")
+    cb_arg = cb_params[0]
+    fin = None
+    for c in ast.walk(cb):
+        if isinstance(c, ast.Call) and dotted(c.func):
+            r = ix.resolve(co.module, dotted(c.func))
+            if hasattr(r, "params") and any(isinstance(x, ast.Name) and x.id == rec_name
+                                            for x in list(c.args) + [k.value for k in c.keywords]):
+                fin = (c, r)
+    ctx.require(fin is not None, f"the weakref callback does not hand `{rec_name}` to a finalizer function")
+    call, F = fin
+
+    def param_of(pred):
+        hits = [F.params[i] for i, a in enumerate(call.args) if i < len(F.params) and pred(a)]
+        hits += [k.arg for k in call.keywords if k.arg and pred(k.value)]
+        return hits
+    recp = param_of(lambda a: isinstance(a, ast.Name) and a.id == rec_name)
+    refp = param_of(lambda a: isinstance(a, ast.Name) and a.id == cb_arg)
+    ctx.require(len(recp) == 1, "finalizer call passes the record more than once")
+    key0 = co.key + ":callback-passes-own-weakref"
+    if len(refp) != 1:
+        ctx.violation(key0, f"the weakref callback does not pass the weakref it is called with (`{cb_arg}`) to {F.name}(): "
+                            f"the finalizer cannot tell whether the dead fairy still owns `{rec_name}`",
+                      f"{co.module.path}:{call.lineno}")
+        return
+    ctx.ok(key0, f"{F.name}({recp[0]}={rec_name}, {refp[0]}={cb_arg})")
+    recp, refp = recp[0], refp[0]
+    # 2. inside the finalizer: every action on the record is behind `ref is None` (direct call) or
+    #    `record.fairy_ref is ref` (gc call that still owns the record)
+    ctx.functions_analysed.add(F.key)
+    g = ctx.cfg(F)
+    fn = F.node
+
+    def establishes(a, p):
+        if not (isinstance(a, ast.Compare) and len(a.ops) == 1):
+            return None
+        l, r_ = _operand(fn, a.left), _operand(fn, a.comparators[0])
+        op = a.ops[0]
+        same = (isinstance(op, (ast.Is, ast.Eq)) and p) or (isinstance(op, (ast.IsNot, ast.NotEq)) and not p)
+        if {l, r_} == {f"{recp}.fairy_ref", refp} and same:
+            return "owner"
+        if isinstance(op, (ast.Is, ast.IsNot)) and ((l == refp and isinstance(a.comparators[0], ast.Constant) and a.comparators[0].value is None)
+                                                    or (r_ == refp and isinstance(a.left, ast.Constant) and a.left.value is None)) and same:
+            return "direct"
+        return None
+    cut, kinds = [], set()
+    for n in g.nodes:
+        if n.kind != "test":
+            continue
+        for b, lab in g.succ[n.id]:
+            if lab not in ("true", "false", "loop"):
+                continue
+            pol = lab == "true"
+            for a, p in _outcome_atoms(fn, n.stmt.test, pol):
+                k = establishes(a, p)
+                if k:
+                    cut.append((n.id, lab, b))
+                    kinds.add(k)
+    actions = []
+    for n in g.nodes:
+        if n.kind not in ("stmt", "test", "with_enter", "for") or n.stmt is None or isinstance(n.stmt, (ast.Assert, ast.Delete)):
+            continue
+        if n.copy:
+            continue
+        for c in _own_calls(n):
+            nm = call_name(c) or ""
+            if nm in _RECORD_NEUTRAL_CALLEES or _is_log(nm):
+                continue
+            recv = nm.rsplit(".", 1)[0] if "." in nm else None
+            passes = any(isinstance(x, ast.Name) and x.id == recp for x in list(c.args) + [k.value for k in c.keywords])
+            if recv == recp or passes:
+                actions.append((n.id, c))
+                break
+    ctx.require(actions, f"{F.key} never acts on `{recp}` (no method call on it, never passed on)")
+    ok_edges = cut_edges(cut)
+    bad = []
+    for nid, c in actions:
+        w = g.witness([g.entry], [nid], edge_ok=ok_edges)
+        if w is not None:
+            bad.append((c, g.describe_path(w)))
+    key = F.key + ":gc-callback-owns-record"
+    if bad:
+        c, w = bad[0]
+        what = ("no branch compares it with the callback's own weakref" if "owner" not in kinds else
+                "the ownership comparison does not dominate it")
+        ctx.violation(key,
+                      f"`{unparse(c)[:70]}` (line {c.lineno}) and {len(bad) - 1} more action(s) on `{recp}` are reachable with "
+                      f"`{refp}` set (gc callback) although {what}: `{recp}.fairy_ref is {refp}` is the only evidence that the "
+                      f"collected fairy still owns the record; without it a stale callback (after detach() / a failed checkout) "
+                      f"resets and checks in a record that another checkout holds",
+                      F.loc, w)
+    else:
+        ctx.ok(key, f"{len(actions)} action(s) on `{recp}` all behind `{refp} is None` or `{recp}.fairy_ref is {refp}`")
 
 
 # ---------------------------------------------------------------------- self-test battery
@@ -445,6 +676,42 @@ R.mutant("checkin-no-double-checkin-guard", POOL,
 R.mutant("checkin-clears-fairy-ref-late", POOL,
          chain(sub("        self.fairy_ref = None\n        connection = self.dbapi_connection\n        pool = self.__pool\n", "        connection = self.dbapi_connection\n        pool = self.__pool\n"),
                sub("        pool._return_conn(self)\n", "        pool._return_conn(self)\n        self.fairy_ref = None\n")), "C25-R6")
+# --- seeds (round 2) and their neighbourhood
+_INC = "        with self._overflow_lock:\n            if self._overflow < self._max_overflow:\n                self._overflow += 1\n                return True\n            else:\n                return False\n"
+R.mutant("seed1-inc-overflow-limit-test-hoisted-out-of-lock", IMPL,
+         sub(_INC, "        if self._overflow >= self._max_overflow:\n            return False\n        with self._overflow_lock:\n            self._overflow += 1\n            return True\n"), "C25-R1")
+R.mutant("inc-overflow-limit-test-in-another-lock-region", IMPL,
+         sub(_INC, "        with self._overflow_lock:\n            if self._overflow >= self._max_overflow:\n                return False\n        with self._overflow_lock:\n            self._overflow += 1\n            return True\n"), "C25-R1")
+R.mutant("inc-overflow-mirrored-off-by-one", IMPL,
+         sub("            if self._overflow < self._max_overflow:\n                self._overflow += 1", "            if self._max_overflow >= self._overflow:\n                self._overflow += 1"), "C25-R1")
+R.mutant("benign-inc-overflow-early-return-inside-lock", IMPL,
+         sub(_INC, "        with self._overflow_lock:\n            if self._overflow >= self._max_overflow:\n                return False\n            self._overflow += 1\n            return True\n"), None)
+R.mutant("benign-inc-overflow-double-checked", IMPL,
+         sub(_INC, "        if self._overflow >= self._max_overflow:\n            return False\n        with self._overflow_lock:\n            if self._max_overflow > self._overflow:\n                self._overflow += 1\n                return True\n            return False\n"), None)
+R.mutant("benign-inc-overflow-flag-local-inside-lock", IMPL,
+         sub(_INC, "        with self._overflow_lock:\n            room = self._overflow < self._max_overflow\n            if room:\n                self._overflow += 1\n            return room\n"), None)
+_GC = "        if connection_record.fairy_ref is not ref:\n            return\n        assert dbapi_connection is None\n        dbapi_connection = connection_record.dbapi_connection\n"
+R.mutant("seed2-finalize-fairy-gc-guard-tests-none-not-own-ref", POOL,
+         sub(_GC, "        if connection_record.fairy_ref is None:\n            return\n        assert dbapi_connection is None\n        dbapi_connection = connection_record.dbapi_connection\n"), "C25-R6")
+R.mutant("finalize-fairy-gc-guard-dropped", POOL,
+         sub(_GC, "        assert dbapi_connection is None\n        dbapi_connection = connection_record.dbapi_connection\n"), "C25-R6")
+R.mutant("finalize-fairy-gc-guard-inverted", POOL,
+         sub("        if connection_record.fairy_ref is not ref:\n            return\n", "        if connection_record.fairy_ref is ref:\n            return\n"), "C25-R6")
+R.mutant("finalize-fairy-gc-guard-after-checkin", POOL,
+         chain(sub(_GC, "        assert dbapi_connection is None\n        dbapi_connection = connection_record.dbapi_connection\n"),
+               sub("    if connection_record and connection_record.fairy_ref is not None:\n        connection_record.checkin()\n",
+                   "    if connection_record and connection_record.fairy_ref is not None:\n        connection_record.checkin()\n    if is_gc_cleanup and connection_record.fairy_ref is not ref:\n        return\n")), "C25-R6")
+R.mutant("checkout-callback-passes-records-current-ref", POOL,
+         sub("                    None, rec, pool, ref, echo, transaction_was_reset=False\n", "                    None, rec, pool, rec.fairy_ref, echo, transaction_was_reset=False\n"), "C25-R6")
+R.mutant("benign-finalize-fairy-guard-positive-form", POOL,
+         sub(_GC, "        if connection_record.fairy_ref is ref:\n            assert dbapi_connection is None\n            dbapi_connection = connection_record.dbapi_connection\n        else:\n            return\n"), None)
+R.mutant("benign-finalize-fairy-guard-via-local", POOL,
+         sub(_GC, "        current_owner = connection_record.fairy_ref\n        if ref is not current_owner:\n            return\n        assert dbapi_connection is None\n        dbapi_connection = connection_record.dbapi_connection\n"), None)
+R.mutant("benign-finalize-fairy-reads-connection-before-guard", POOL,
+         sub(_GC, "        assert dbapi_connection is None\n        dbapi_connection = connection_record.dbapi_connection\n        if connection_record.fairy_ref is not ref:\n            return\n"), None)
+R.mutant("benign-checkout-callback-arg-renamed", POOL,
+         chain(sub("            lambda ref: (\n", "            lambda wr: (\n"),
+               sub("                    None, rec, pool, ref, echo, transaction_was_reset=False\n", "                    None, rec, pool, wr, echo, transaction_was_reset=False\n")), None)
 # benign refactors
 R.mutant("benign-queue-rename-local", QUEUE, sub("remaining", "left", count=6), None)
 R.mutant("benign-checkedout-reordered", IMPL,
